@@ -123,7 +123,11 @@ Theorem gates_as_modelled :
   G.processed_set_keyed_by_tx_hash = true /\
   G.sig_prefix_loop = "i := len(msg.GetSignData()); i > 0; i--"%string /\
   (* routerAttester's deferred report to the metrix listener: see [relay_success_flag] *)
-  G.relay_success_means = "winner is a transaction proof"%string.
+  G.relay_success_means = "winner is a transaction proof"%string /\
+  (* the processed set only grows and membership is pure key presence, as [processed] / [mem_hash] have it *)
+  G.is_tx_processed_consults = "key presence"%string /\
+  G.processed_store_users = ["isTxProcessed"; "setTxAsAlreadyProcessed"; "txAlreadyProcessedStore"]%string /\
+  G.processed_store_deleters = [].
 Proof. repeat split; reflexivity. Qed.
 
 Lemma method_tag_inj : forall k k', method_tag k = method_tag k' -> k = k'.
